@@ -102,6 +102,7 @@ func Main() {
 	worker := flag.Bool("worker", false, "internal: run as worker")
 	shard := flag.String("shard", "0/1", "internal: i/n")
 	only := flag.String("only", "", "internal: unit:ordinal")
+	upto := flag.String("upto", "", "internal: unit:ordinal -- run the unit up to that case")
 	replay := flag.String("replay", "", "replay file")
 	workers := flag.Int("workers", 0, "worker processes")
 	seedF := flag.Int64("seed", 0, "seed")
@@ -137,7 +138,7 @@ func Main() {
 	}
 	os.MkdirAll(WorkDir(), 0o755)
 	if *worker {
-		runWorker(p, t, seed, *shard, *only)
+		runWorker(p, t, seed, *shard, *only, *upto)
 		return
 	}
 	os.Exit(coordinate(p, t, seed, *workers))
@@ -155,7 +156,7 @@ func budget(t Tier) time.Duration {
 	return 15 * time.Minute
 }
 
-func runWorker(p *Prop, t Tier, seed int64, shard, only string) {
+func runWorker(p *Prop, t Tier, seed int64, shard, only, upto string) {
 	runtime.GOMAXPROCS(1)
 	c := NewCtx(p, t, seed)
 	c.deadline = time.Now().Add(budget(t))
@@ -165,7 +166,15 @@ func runWorker(p *Prop, t Tier, seed int64, shard, only string) {
 		n = 1
 	}
 	units := p.Plan(t)
-	if only != "" {
+	if upto != "" {
+		var u int
+		var k int64
+		fmt.Sscanf(upto, "%d:%d", &u, &k)
+		c.upto = k
+		c.Unit = u
+		c.Ordinal = 0
+		p.Run(c, u)
+	} else if only != "" {
 		var u int
 		var k int64
 		fmt.Sscanf(only, "%d:%d", &u, &k)
@@ -369,6 +378,21 @@ func coordinate(p *Prop, t Tier, seed int64, nw int) int {
 				}
 			}
 		}
+		if !confirmed && !strings.HasPrefix(v.What, "process death") {
+			// the case may fail only after what earlier cases of its unit left behind in the process: run the unit up to the case
+			// in a fresh process, twice
+			confirmed = true
+			for i := 0; i < 2; i++ {
+				if !historyFails(p, t, seed, v) {
+					confirmed = false
+				}
+			}
+			if confirmed {
+				v.History = true
+				v.What += " (only after the earlier cases of its unit have run in the same process)"
+				writeJSON(path, v)
+			}
+		}
 		if !confirmed {
 			c.Unrepro++
 			os.Rename(path, strings.TrimSuffix(path, ".json")+".unreproducible")
@@ -442,6 +466,17 @@ func coordinate(p *Prop, t Tier, seed int64, nw int) int {
 	return 0
 }
 
+// historyFails runs the violation's unit up to its case in a fresh worker and reports whether the case fails there the same way.
+func historyFails(p *Prop, t Tier, seed int64, v Violation) bool {
+	out := spawn(p, t, seed, "--upto", fmt.Sprintf("%d:%d", v.Unit, v.Ordinal))
+	for _, w := range out.res.Violations {
+		if w.Unit == v.Unit && w.Ordinal == v.Ordinal && w.What == v.What {
+			return true
+		}
+	}
+	return false
+}
+
 func firstLine(s string) string {
 	s = strings.TrimSpace(s)
 	if i := strings.IndexByte(s, '\n'); i >= 0 {
@@ -486,6 +521,26 @@ func runReplay(path string) int {
 	t := v.Tier
 	if t == "" {
 		t = Quick
+	}
+	if v.History {
+		// replay = the unit up to the case, in this (fresh) process
+		c := NewCtx(p, t, 0)
+		c.upto = v.Ordinal
+		c.Unit = v.Unit
+		p.Run(c, v.Unit)
+		what := strings.TrimSuffix(v.What, " (only after the earlier cases of its unit have run in the same process)")
+		for _, w := range c.Violations {
+			if w.Ordinal == v.Ordinal && w.What == what {
+				if os.Getenv("VERIF_REPLAY_QUIET") == "" {
+					fmt.Printf("replay %s: property %s is violated by case %d of unit %d once the cases before it have run\n  what: %s\n", path, v.Property, v.Ordinal, v.Unit, w.What)
+				}
+				return 1
+			}
+		}
+		if os.Getenv("VERIF_REPLAY_QUIET") == "" {
+			fmt.Printf("replay %s: property %s holds on this history now\n", path, v.Property)
+		}
+		return 0
 	}
 	c := NewCtx(p, t, 0)
 	c.replay = true
